@@ -233,15 +233,19 @@ def apply_sys(model, s, trace_path=None):
         _rename(model, old, new)
         return ("fs", "rename %s -> %s" % (rel(model, old), rel(model, new)))
     if n in ("unlink", "unlinkat", "rmdir"):
+        listing = ""
         if n == "unlinkat":
             p = _at_path(a[0], a[1])
+            if not a[0].startswith("AT_FDCWD"):
+                # os.RemoveAll walks a directory fd: the order of these unlinks is the directory listing order (file system defined)
+                listing = " [listing-order]"
         else:
             p = str_arg(a[0]).decode()
         if not model.under(p):
             return None
         if p in model.files:
             del model.files[p]
-            return ("fs", "unlink %s" % rel(model, p))
+            return ("fs", "unlink %s%s" % (rel(model, p), listing))
         if p in model.dirs:
             model.dirs.discard(p)
             return ("fs", "rmdir %s" % rel(model, p))
@@ -393,8 +397,8 @@ def unlink_permutation_points(points, root):
     while i < len(points):
         j = i
         names = []
-        while j < len(points) and points[j].desc.startswith("unlink "):
-            p = points[j].desc[len("unlink "):]
+        while j < len(points) and points[j].desc.startswith("unlink ") and points[j].desc.endswith(" [listing-order]"):
+            p = points[j].desc[len("unlink "):-len(" [listing-order]")]
             if names and os.path.dirname(p) != os.path.dirname(names[0]):
                 break
             names.append(p)
